@@ -3,7 +3,9 @@
    codec/msgpack.go by harness/cmd/wiremsgpack + Wire/MsgpackCorr.v. *)
 From Coq Require Import List NArith ZArith Lia Bool.
 From Verif Require Import Base.Outcome Wire.Item Gen.Consts Wire.Msgpack Wire.MsgpackProofs Wire.MsgpackRT.
-From Verif Require Import C10.MsgpackSpec C10.MsgpackProofs.
+From Verif Require Import C10.MsgpackSpec C10.MsgpackProofs C10.MsgpackSpecProofs.
+From Verif Require C10.CborSpec.
+From Verif Require Import Wire.MsgpackVU Wire.MsgpackVUProofs.
 From Verif Require Gen.Leaf2 C10.LeafTieMsgpack.
 Import ListNotations.
 
@@ -98,6 +100,122 @@ Proof.
   - exact I.
   - vm_compute. reflexivity.
 Qed.
+
+(* ---------------- the specification model is consistent with itself ---------------- *)
+
+(* soundness of the spec decoder for ALL permitted serialisations: whatever serialisation [ser] permits
+   for a value (any integer width that holds it, fixstr / str 8 / 16 / 32, bin, fixext / ext 8 / 16 / 32,
+   the three timestamp formats, any array / map head), followed by anything, is read by the format-table
+   decoder [sdec] -- with any fuel >= 2 * length -- as the data the value denotes, leaving what followed.
+   [sden] (C10/MsgpackSpecProofs.v) is the identity except on application use of the reserved extension
+   type -1: a 4 / 8 / 12-byte payload of type -1 IS a timestamp (None when its nanoseconds exceed
+   999999999, which [sdec] refuses); C10_msgpack_spec_consistent_proper is the identity case. *)
+Theorem C10_msgpack_spec_consistent : forall (v : sval) (b : list N) (f : nat) (rest : list N),
+  ser v b -> (2 * length b <= f)%nat ->
+  sdec f (b ++ rest) = match sden v with Some v' => Some (v', rest) | None => None end.
+Proof. exact spec_sound. Qed.
+Print Assumptions C10_msgpack_spec_consistent.
+
+Theorem C10_msgpack_spec_consistent_proper : forall (v : sval) (b : list N) (f : nat) (rest : list N),
+  ser v b -> sproper v -> (2 * length b <= f)%nat -> sdec f (b ++ rest) = Some (v, rest).
+Proof. exact spec_sound_proper. Qed.
+Print Assumptions C10_msgpack_spec_consistent_proper.
+
+(* completeness: everything the spec decoder accepts -- any byte list (bytes are < 256), any fuel -- is a
+   permitted serialisation, of a value denoting what was decoded, followed by what was left *)
+Theorem C10_msgpack_spec_complete : forall (f : nat) (b : list N) (v : sval) (rest : list N),
+  bytes b -> sdec f b = Some (v, rest) ->
+  exists v0 b0, b = b0 ++ rest /\ ser v0 b0 /\ sden v0 = Some v.
+Proof. exact spec_complete. Qed.
+Print Assumptions C10_msgpack_spec_complete.
+
+(* both directions at once: [sdec] decides exactly the format [ser] describes *)
+Theorem C10_msgpack_spec_iff : forall (b : list N) (v : sval) (rest : list N), bytes b ->
+  ((exists f, sdec f b = Some (v, rest)) <-> (exists v0 b0, b = b0 ++ rest /\ ser v0 b0 /\ sden v0 = Some v)).
+Proof. exact spec_iff. Qed.
+Print Assumptions C10_msgpack_spec_iff.
+
+(* the format is unambiguous: values sharing a serialisation denote the same data *)
+Theorem C10_msgpack_spec_unambiguous : forall (v v' : sval) (b : list N), ser v b -> ser v' b -> sden v = sden v'.
+Proof. exact spec_unambiguous. Qed.
+Print Assumptions C10_msgpack_spec_unambiguous.
+
+(* completeness with the decoded value itself in place of "a value denoting it" is FALSE of this
+   transcription: c7 04 ff 00 00 00 01 (ext 8, length 4, type -1) is read as the timestamp 1 s, and
+   [ser_time] lists only d6 ff.. / d7 ff.. / c7 0c ff.. for it.  (A statement about the spec model, not
+   about the library: [sdec] takes ANY extension of type -1 with 4 / 8 / 12 payload bytes for a timestamp.) *)
+Theorem C10_msgpack_spec_complete_strict_refuted :
+  exists b v rest, bytes b /\ sdec 2 b = Some (v, rest) /\ ~ (exists b0, b = b0 ++ rest /\ ser v b0).
+Proof. exact spec_strict_refuted. Qed.
+Print Assumptions C10_msgpack_spec_complete_strict_refuted.
+
+(* non-vacuity: a non-minimal serialisation of a nested value is permitted and read back; an ext 16 of
+   type -1 and length 8 denotes a timestamp; nanoseconds 10^9 denote nothing and are refused *)
+Example C10_msgpack_spec_consistent_nonvacuous :
+  let v := SArr [SInt 5; SMap [(SStr [97]%N, STime 1 2)]; SExt 7 [1; 2; 3]%N] in
+  let w := [0xdc; 0; 3;  0xd1; 0; 5;  0xdf; 0; 0; 0; 1;  0xd9; 1; 97;
+            0xc7; 12; 0xff; 0; 0; 0; 2; 0; 0; 0; 0; 0; 0; 0; 1;  0xc8; 0; 3; 7; 1; 2; 3]%N in
+  ser v w /\ sproper v /\ sdec (2 * length w) (w ++ [9]%N) = Some (v, [9]%N) /\
+  sden (SExt (-1) [0; 0; 0; 8; 0; 0; 0; 1]%N) = Some (STime 1 2) /\
+  ser (SExt (-1) [0; 0; 0; 8; 0; 0; 0; 1]%N) [0xc8; 0; 8; 0xff; 0; 0; 0; 8; 0; 0; 0; 1]%N /\
+  sden (SExt (-1) [0xee; 0x6b; 0x28; 0; 0; 0; 0; 0]%N) = None /\
+  sdec 4 [0xd7; 0xff; 0xee; 0x6b; 0x28; 0; 0; 0; 0; 0]%N = None.
+Proof.
+  cbv zeta. split; [|split; [|split; [|split; [|split; [|split]]]]]; try (vm_compute; reflexivity).
+  - cbn [ser]. exists [0xdc; 0; 3]%N,
+      [[0xd1; 0; 5]; [0xdf; 0; 0; 0; 1; 0xd9; 1; 97; 0xc7; 12; 0xff; 0; 0; 0; 2; 0; 0; 0; 0; 0; 0; 0; 1]; [0xc8; 0; 3; 7; 1; 2; 3]]%N.
+    split; [|split; [|split; [|split; [|split]]]]; try reflexivity; try exact I.
+    + unfold arr_head. right; left. split; reflexivity.
+    + unfold ser_int. do 7 right; left. split; [lia|reflexivity].
+    + exists [0xdf; 0; 0; 0; 1]%N, [[0xd9; 1; 97; 0xc7; 12; 0xff; 0; 0; 0; 2; 0; 0; 0; 0; 0; 0; 0; 1]]%N.
+      split; [|split; [|split]]; try reflexivity; try exact I.
+      * unfold map_head. right; right. split; reflexivity.
+      * exists [0xd9; 1; 97]%N, [0xc7; 12; 0xff; 0; 0; 0; 2; 0; 0; 0; 0; 0; 0; 0; 1]%N. split; [|split]; try reflexivity.
+        -- cbn [fst ser]. unfold ser_str. right; left. split; reflexivity.
+        -- cbn [snd ser]. unfold ser_time. right; right. split; [lia|]. split; [lia|reflexivity].
+    + unfold ser_ext. split; [lia|]. do 6 right; left. split; reflexivity.
+  - cbn. split; [exact I|]. split; [split; [exact I|split; [exact I|exact I]]|]. split; [discriminate|exact I].
+  - cbn [ser]. unfold ser_ext. split; [lia|]. do 6 right; left. split; reflexivity.
+Qed.
+
+(* ---------------- DecodeOptions.ValidateUnicode, destination interface{} ---------------- *)
+
+(* Model: Wire/MsgpackVU.v.  msgpack.go consults utf8.Valid only in DecodeStringAsBytes (string destinations);
+   DecodeNaked reads the str family through DecodeBytes, so for the decoder modelled here the option changes
+   nothing: [dec_naked_vu vu D] IS [dec_naked D] (by definition; tied by the correspondence, where the real
+   Decoder runs with ValidateUnicode on: harness/cmd/wiremsgpack stream vu, case kind 4). *)
+
+(* (a) every encoder output still decodes, to the same item, with the option on *)
+Theorem C10_msgpack_vu_accepts : forall O D i rest,
+  supported i -> sint_ok D i -> (Z.of_nat (depth i) < maxdepth D)%Z ->
+  goslice (len (enc O i ++ rest)) ->
+  dec_naked_vu true D (dec_fuel (enc O i ++ rest)) (enc O i ++ rest) = Ok (norm O D i, rest).
+Proof. exact vu_accepts. Qed.
+Print Assumptions C10_msgpack_vu_accepts.
+
+(* (b) "an Ok result holds no ill-formed text" is the statement one expects of the option; it is FALSE of the
+   code (finding F10-5): with WriteExt -- str family = UTF-8 text -- a1 ff decodes into interface{} to the Go
+   string "\xff" without an error, ValidateUnicode set or not (the same bytes into a string destination are
+   rejected).  The full statement is kept visible; what holds instead is C10_msgpack_vu_noeffect. *)
+Theorem C10_msgpack_vu_sound_refuted :
+  exists D b i rest, dec_naked_vu true D (dec_fuel b) b = Ok (i, rest) /\ text_ok i = false.
+Proof. exact vu_sound_refuted. Qed.
+Print Assumptions C10_msgpack_vu_sound_refuted.
+
+Theorem C10_msgpack_vu_sound_full_statement_false : ~ vu_sound_full_statement.
+Proof. exact vu_sound_full_statement_false. Qed.
+Print Assumptions C10_msgpack_vu_sound_full_statement_false.
+
+Theorem C10_msgpack_vu_noeffect : forall vu D f b, dec_naked_vu vu D f b = dec_naked D f b.
+Proof. exact vu_noeffect. Qed.
+Print Assumptions C10_msgpack_vu_noeffect.
+
+Example C10_msgpack_vu_nonvacuous :
+  let D := mkdopts true false false 0 in
+  dec_naked_vu true D 9 [0xa1; 0xff]%N = Ok (IStr [0xff]%N, []) /\ CborSpec.utf8_valid [0xff]%N = false /\
+  dec_naked_vu true D 9 [0x81; 0xa2; 0xc3; 0xa9; 0xa3; 0xed; 0xa0; 0x80]%N = Ok (IMap [(IStr [0xc3; 0xa9]%N, IStr [0xed; 0xa0; 0x80]%N)], []) /\
+  CborSpec.utf8_valid [0xc3; 0xa9]%N = true /\ CborSpec.utf8_valid [0xed; 0xa0; 0x80]%N = false.
+Proof. cbv zeta. repeat apply conj; vm_compute; reflexivity. Qed.
 
 (* ---------------- wire layer ---------------- *)
 
